@@ -128,6 +128,22 @@ func (vc *VC) loadElem(st *State, s Val, idx Term, et types.Type) Val {
 	return vc.load(st, vc.elemAddr(s, idx, et), et)
 }
 
+// sliceSet is the ghost set of element values of a slice value built by
+// appends: sset(arr, off, len). It is only constrained by append (and empty for
+// len 0), so it describes the contents at the time of the last append.
+func (vc *VC) sliceSet(s Val) Term {
+	vc.decls.Fun("sset", []Sort{SInt, SInt, SInt}, ArrSort(SInt, SBool))
+	t := App(ArrSort(SInt, SBool), "sset", s.T, s.Off, s.Len)
+	if s.Len.S == "0" {
+		k := "sset0:" + t.S
+		if !vc.facts[k] {
+			vc.facts[k] = true
+			vc.assumeRaw(Eq(t, Term{"((as const (Array Int Bool)) false)", ArrSort(SInt, SBool)}))
+		}
+	}
+	return t
+}
+
 func (vc *VC) strSub(s, lo, hi Term) Term {
 	vc.decls.Fun("gstr.sub", []Sort{SStr, SInt, SInt}, SStr)
 	t := App(SStr, "gstr.sub", s, lo, hi)
